@@ -145,6 +145,10 @@ def run(rep: Report, tier: str) -> None:
 		for v in hv:
 			is_hash = isinstance(v, ast.Call) and unparse(v.func).endswith('.hash') and v.args
 			to_file = is_hash and has_call(v.args[0], 'module_path_to_filepath') and any(isinstance(x, ast.Name) and x.id == param for x in ast.walk(v.args[0]))
+			# the hashed file is THE file of the module: selected by equality, never by a prefix/suffix/substring relation between paths
+			loose = [unparse(x)[:80] for x in ast.walk(v.args[0]) if (isinstance(x, ast.Call) and isinstance(x.func, ast.Attribute) and x.func.attr in ('startswith', 'endswith', 'find', 'rfind', 'count'))
+				or (isinstance(x, ast.Compare) and len(x.ops) == 1 and isinstance(x.ops[0], (ast.In, ast.NotIn)) and not isinstance(x.comparators[0], (ast.List, ast.Tuple, ast.Set, ast.Dict, ast.Name, ast.Attribute)))] if is_hash else []
+			rn.check(not loose, 'module-hash-source:exact', hf.where, f'the file whose hash goes into the header is selected with `{loose[:1]}`: a prefix/substring relation between file paths also matches a sibling (vector.py / vector_ext.py), so the header of one module records the hash of another and an edit never triggers regeneration', unparse(v)[:200])
 			rn.check(bool(is_hash and to_file), 'module-hash-source', hf.where, f'ModuleMeta.hash must be sources.hash(<file of the module `{param}`>): `{unparse(v)[:160]}`', unparse(v)[:200])
 
 	# ---- (b) written vs parsed form ------------------------------------------------------------------------------------
